@@ -7,7 +7,7 @@ PROP_MODS = ["ODataVerif.Tie.ReturnTypes", "ODataVerif.Props.C18"]
 TYPES = ["bool", "int", "float", "str", "date", "datetime", "time", "coll"]
 ALLOWED_SETS = [("String",), ("String", "List"), ("Integer", "Float"), ("Boolean",), ("Date", "DateTime"), ("List",),
                 # every single kind on its own (a single class is passed as such, not as a tuple) and a few more pairs
-                ("DateTime",), ("Date",), ("Time",), ("Integer",), ("Float",), ("GUID",), ("Time", "DateTime"), ("Date", "Time"), ("String", "GUID")]
+                ("DateTime",), ("Date",), ("Time",), ("Integer",), ("Float",), ("GUID",), ("Time", "DateTime"), ("Date", "Time"), ("String", "GUID"), ("Duration",), ("Duration", "Integer")]
 
 def real_infer(node):
     try:
@@ -66,6 +66,21 @@ def run(ctx):
         nd = g.gen(ty, rng.randint(0, 3))
         nodes.append(nd)
         claimed[id(nd)] = ty
+    # arithmetic over every pair of representative terms of every kind (numeric promotion; temporal arithmetic: date sub date is a duration …), plain and nested
+    lit = {"int": ast.Integer("5"), "float": ast.Float("2.5"), "date": ast.Date("2020-01-01"), "datetime": ast.DateTime("2020-01-01T10:00:00Z"), "duration": ast.Duration("P1D"),
+           "time": ast.Time("12:00:00"), "str": ast.String("ab"), "bool": ast.Boolean("true")}
+    comp = {"int": gens_typed.call("length", ast.String("abc")), "float": gens_typed.call("round", ast.Float("1.5")), "date": gens_typed.call("date", ast.DateTime("2020-01-01T10:00:00Z")),
+            "datetime": gens_typed.call("now"), "duration": ast.UnaryOp(ast.USub(), ast.Duration("PT1H"))}
+    terms = list(lit.values()) + list(comp.values())
+    for op in (ast.Add, ast.Sub, ast.Mult, ast.Div, ast.Mod):
+        for a in terms:
+            for b in terms:
+                e = ast.BinOp(op(), a, b)
+                nodes.append(e)
+                if op in (ast.Add, ast.Sub):
+                    nodes.append(ast.BinOp(ast.Add(), e, ast.Duration("PT1H")))
+    for a in terms:
+        nodes.append(ast.UnaryOp(ast.USub(), a)); nodes.append(ast.UnaryOp(ast.Not(), a))
     # nest: every generated term as first/second argument of concat / substring (argument-derived types)
     for nd in list(nodes[: 400]):
         nodes.append(gens_typed.call("concat", nd, ast.Identifier("s1")))
